@@ -11,7 +11,6 @@ from __future__ import annotations
 from copy import deepcopy
 from typing import Any
 
-from exabgp.bgp.message.update.attribute import Attribute
 from exabgp.bgp.message.update.collection import validate_announce_nlri
 from exabgp.bgp.message.update.nlri import NLRI
 from exabgp.bgp.message.update.nlri.empty import Empty
@@ -634,7 +633,7 @@ class ParseNeighbor(Section):
         for route in neighbor.routes:
             # what the encoder refuses (no next-hop, no label, no route distinguisher) is refused here: the
             # API does so before it answers, and an UPDATE which cannot be generated stops the peer loop
-            if not isinstance(route.nlri, Empty) and Attribute.CODE.INTERNAL_WITHDRAW not in route.attributes:
+            if not isinstance(route.nlri, Empty):
                 announce_error = validate_announce_nlri(route.nlri, route.nexthop)
                 if announce_error:
                     return self.error.set(announce_error)
